@@ -271,6 +271,11 @@ func newDestX(rg *rng, kind string, origin image.Point, size image.Point, exact 
 	}
 	r := image.Rect(origin.X, origin.Y, origin.X+size.X+ex, origin.Y+size.Y+ey)
 	outer := image.Rect(r.Min.X-rg.intn(4), r.Min.Y-rg.intn(4), r.Max.X+rg.intn(5), r.Max.Y+rg.intn(4))
+	if bandRows != nil {
+		// a full-width band of its parent: the stride equals the row length, rows of the parent lie above and/or below
+		r = image.Rect(origin.X, origin.Y, origin.X+size.X, origin.Y+size.Y)
+		outer = image.Rect(r.Min.X, r.Min.Y-bandRows[0], r.Max.X, r.Max.Y+bandRows[1])
+	}
 	mk := func(pix []uint8) (draw.Image, []uint8, int, int, string) {
 		switch kind {
 		case "rgba":
@@ -418,6 +423,22 @@ func corrC10(c *corrCtx) {
 				c10CaseX(c, r, "big/"+pair[0]+"->"+pair[1], src, sb, pair[1], image.Pt(r.intn(21)-10, r.intn(21)-10), xs[r.intn(len(xs))], r.pick(1, 4, 16, 33), false, r.intn(2) == 0)
 			}
 		}
+		// full-width bands of a parent (stride = row length; the parent's buffer extends above and/or below the band):
+		// in place and from another image
+		for _, dk := range []string{"rgba64", "rgba", "nrgba", "nrgba64"} {
+			for _, ab := range [][2]int{{0, 3}, {2, 0}, {2, 3}, {0, 1}} {
+				g := geoms[4+r.intn(len(geoms)-4)]
+				x := xs[r.intn(len(xs))]
+				rows := ab
+				bandRows = &rows
+				n := r.pick(1, 2, 3, g.h+5)
+				c10Case(c, r, "band-inplace/"+dk, nil, image.Rect(0, 0, g.w, g.h), dk, image.Pt(r.intn(9)-4, r.intn(9)-4), x, n, true)
+				sb := image.Rect(1, -2, 1+g.w, -2+g.h)
+				src := newSource(r, dk, sb)
+				c10CaseX(c, r, "band/"+dk, src, src.Bounds(), dk, image.Pt(r.intn(9)-4, r.intn(9)-4), x, n, false, true)
+				bandRows = nil
+			}
+		}
 		// in place: source == destination
 		for _, dk := range []string{"rgba64", "rgba", "nrgba", "nrgba64"} {
 			g := geoms[3+r.intn(len(geoms)-3)]
@@ -433,6 +454,9 @@ func corrC10(c *corrCtx) {
 }
 
 var c10Chain bool
+
+// bandRows, when set, makes newDestX build destinations that are full-width bands of their parent
+var bandRows *[2]int
 
 func c10Case(c *corrCtx, r *rng, class string, src image.Image, sb image.Rectangle, dk string, dOrigin image.Point, x xform, n int, inPlace bool) {
 	c10CaseX(c, r, class, src, sb, dk, dOrigin, x, n, inPlace, r.intn(2) == 0)
